@@ -85,7 +85,11 @@ func c14Fields(c *Ctx) {
 	fs := FieldStores(fn, lit)
 	env := func(name string) string { return `call<dyn p0>(const("` + name + `"))` }
 	attrs := "call<" + RepoMod + "/message.Unmarshal>(" + env("SSH_ORIGINAL_COMMAND") + ")#0"
-	force := "call<" + RepoMod + "/csr.parseForceCommand>(call<dyn p1>())"
+	forceName := RepoMod + "/csr.parseForceCommand"
+	if pf := calleeBySignature(w, fn, 1, "common.NamespacePolicy", "string", "error"); pf != nil {
+		forceName = fnName(pf)
+	}
+	force := "call<" + forceName + ">(call<dyn p1>())"
 	want := map[string]string{
 		"LogName":         env("LOGNAME"),
 		"ClientIP":        "call<strings.Split>(" + env("SSH_CONNECTION") + `,const(" "))[const(0)]`,
@@ -144,7 +148,7 @@ func c14Fields(c *Ctx) {
 			continue
 		}
 		n := calleeName(cv)
-		if strings.HasSuffix(n, "csr.parseForceCommand") || strings.HasSuffix(n, "message.Unmarshal") {
+		if n == forceName || strings.HasSuffix(n, "message.Unmarshal") {
 			errIdx := cv.Call.Signature().Results().Len() - 1
 			isNil, known := f.KnownNil(b, extractOf(cv, errIdx))
 			c.Check(known && isNil, "R1.fields", "NewReqParam|"+shortName(n)+" succeeded", w.Pos(cv.Pos()), "must-fact err == nil", "parameters can be built although "+shortName(n)+" failed")
@@ -177,7 +181,7 @@ func c14Fields(c *Ctx) {
 	}
 	c.Check(okVer, "R1.fields", "NewReqParam|client version = declared major.minor or 0.0", w.Pos(lit.Pos()), "default when the message omits it, else version.Unmarshal(declared) with its error checked", "the client version is neither the default nor the checked parse of the declared version")
 	// policy validity inside the force-command parser
-	if pf := w.Func("csr", "parseForceCommand"); pf != nil {
+	if pf := calleeBySignature(w, fn, 1, "common.NamespacePolicy", "string", "error"); pf != nil {
 		c.Saw(pf)
 		pff := w.Facts(pf)
 		for _, r := range w.MayBeNilReturns(pf) {
